@@ -47,8 +47,14 @@ def run_case(cf, specs, nums, col, check_format=True, check_exact=False):
     data = case_json(cf, specs, nums)
     pictures = P.build_pictures(cf, specs, nums)
     facts = {"rejected": False, "all_q0": False, "unrepresentable": False}
+    from vpbt.core import CpuTimeout, cpu_limit
+
     try:
-        blob, seq = S.encode(cf, pictures)
+        with cpu_limit(120):
+            blob, seq = S.encode(cf, pictures)
+    except CpuTimeout:
+        col.fail("encoder-no-result-within-120s-cpu", data, "make_sequence/serialisation did not finish within 120 s of CPU time")
+        return facts
     except UnsatisfiableCodecFeaturesError as e:
         facts["rejected"] = type(e).__name__
         return facts
